@@ -990,6 +990,8 @@ func (x *Exec) stdlib(st *State, callee *ssa.Function, args []Val, site string) 
 		r := x.name(st, "v", Val{S: uf("lib_strings_TrimSpace", []string{"Str"}, "Str", []string{args[0].S}), T: types.Typ[types.String]})
 		x.assume(st, fmt.Sprintf("(and (<= 0 (s_len %s)) (<= (s_len %s) (s_len %s)))", r.S, r.S, args[0].S))
 		return r
+	case "strings.ReplaceAll":
+		return x.name(st, "v", Val{S: uf("lib_strings_ReplaceAll", []string{"Str", "Str", "Str"}, "Str", []string{args[0].S, args[1].S, args[2].S}), T: types.Typ[types.String]})
 	case "strings.Repeat":
 		r := x.name(st, "v", Val{S: uf("lib_strings_Repeat", []string{"Str", is}, "Str", []string{args[0].S, args[1].S}), T: types.Typ[types.String]})
 		x.check(st, "safe:panic@"+site+"/Repeat", fmt.Sprintf("(>= %s 0)", args[1].S), site)
